@@ -4,12 +4,15 @@ CHECK = {
         {"mode": "inpkg", "pkg": "runner/ollamarunner",
          "files": ["rs_backend_test.go", "rs_model_test.go", "c14_run_test.go"], "shims": _SHIM},
         {"mode": "inpkg", "pkg": "runner/common", "files": ["c14_laws_test.go"]},
+        {"mode": "inpkg", "pkg": "runner/llamarunner", "files": ["llr_engine_test.go", "c14_llama_test.go"]},
     ],
     "level": "exploration",
     "engine": "runnersim",
     "technique": "property-based testing (rapid, shrinking) of the real completion HTTP handler + Server.run + processBatch with a scripted model "
                  "that generates a given sequence of token pieces; reference oracle computed on the whole generated text; plus laws of the pure "
-                 "functions in runner/common/stop.go",
+                 "functions in runner/common/stop.go; plus the same oracle on the real llamarunner (cgo) completion handler + Server.run + "
+                 "processBatch driving llama.cpp on a generated tiny GGUF model whose output is programmed per request through a GBNF grammar "
+                 "and a sampler seed, against a reference generation loop written on package llama",
     "level_text": "Randomised exploration of scripts x stop lists x limits. One request per case goes through the real handler (JSON request, "
                   "sampler for temperature 0, NewSequence, LoadCacheSlot, NDJSON stream) and the real run loop over the real causal KV cache; "
                   "the stream is compared with a reference that sees the whole text: prefix of the generated text, ends immediately before a "
@@ -30,19 +33,40 @@ CHECK = {
                   "valid UTF-8 the runner drops bytes on purpose (flushPending: 'never output invalid Unicode'); there only: pieces valid "
                   "UTF-8, output starts with the expected output up to the first invalid byte, exact if the stop string completes before it, "
                   "one final message, 'length' only at the limit. Responses travel through encoding/json: invalid UTF-8 would arrive as "
-                  "U+FFFD, which scripts never contain. llamarunner's copy of the loop needs llama.cpp and is NOT run; it calls the same "
-                  "runner/common functions, whose laws are the second target. Known findings are steered around only when listed (list-order "
-                  "cases skipped, negative-trim cases run with a large context); replays always run strict.",
+                  "U+FFFD, which scripts never contain. Known findings are steered around only when listed (list-order "
+                  "cases skipped, negative-trim cases run with a large context); replays always run strict. "
+                  "llamarunner (third target, engine llr): its copy of the loop works on cgo types that cannot be faked, so it runs for real: the "
+                  "harness writes a GGUF file with fs/ggml.WriteGGUF (architecture llama, 1 block, embedding 16, 2 heads, F32, pseudo-random hidden "
+                  "weights, 471-token SentencePiece-style vocabulary: 256 byte-fallback tokens, 1-4 byte characters, all pairs and some triples of "
+                  "them, filler characters), the runner's own loadModel loads it through llama.cpp, Server.run and the completion handler are the "
+                  "real ones. output.weight is all zero, so every logit is exactly 0 and the next token is chosen by llama.cpp's sampler alone: "
+                  "uniformly (seeded mt19937) among the tokens the request's grammar allows; root ::= \"<text>\" makes the model generate <text> "
+                  "then EOS, cut into pieces that depend on the seed (a character as one token or as its 2-4 byte tokens). Reference = a plain "
+                  "loop on package llama (Tokenize, Decode on a context of its own, a sampling context with the same parameters / grammar / seed, "
+                  "TokenToPiece, TokenIsEog) with no stop strings: trusted are package llama, llama.cpp (deterministic tokenizer, decode, grammar, "
+                  "sampler RNG) and WriteGGUF, not one line of runner/llamarunner. A llama.cpp context cannot be freed through the Go API and costs "
+                  "~480 MiB of address space: the first Server of a (context size/32, parallel) class is built by loadModel, later cases put a "
+                  "fresh Server literal + InputCache on that context after KvCacheClear (7 contexts per process). Slow-client cases as in the first "
+                  "target (synctest bubble around server, request and shutdown; cgo calls inside the bubble are not durably blocked, so Wait() is "
+                  "still exact). Not generated: images, embeddings, several requests at once (C07's llamarunner target does that), LoRA, flash "
+                  "attention, quantised KV cache. A llama.cpp assertion kills the process: the driver then reports the current case.",
     "design_ref": "DESIGN.md section 3 'Engine runnersim' / C14, section 4 row 11",
     "targets": [{"name": "TestC14Stream", "build": 0,
                  "quick": {"cases": 30000, "shards": 4, "soft_s": 45},
                  "thorough": {"cases": 400000, "shards": 16, "soft_s": 360}},
                 {"name": "TestC14StopLaws", "build": 1,
                  "quick": {"cases": 50000, "shards": 1, "soft_s": 30},
-                 "thorough": {"cases": 1000000, "shards": 4, "soft_s": 300}}],
+                 "thorough": {"cases": 1000000, "shards": 4, "soft_s": 300}},
+                {"name": "TestC14LlamaRunner", "build": 2,
+                 "quick": {"cases": 10000, "shards": 4, "soft_s": 30},
+                 "thorough": {"cases": 400000, "shards": 6, "soft_s": 320}}],
     "floors": {"stop_hit": 0.2, "stop_straddles_pieces": 0.03, "multibyte_straddles_pieces": 0.06, "limit_hit": 0.06, "eos_hit": 0.1,
                "invalid_utf8_script": 0.04, "context_shift": 0.03, "law_cut_inside_character": 0.05, "law_stop_straddles_pieces": 0.015,
-               "slow_client": 0.03, "slow_client_runner_blocked_on_full_buffer": 0.015, "slow_client_generation_ended_during_stall": 0.01},
+               "slow_client": 0.03, "slow_client_runner_blocked_on_full_buffer": 0.015, "slow_client_generation_ended_during_stall": 0.01,
+               # TestC14LlamaRunner (classes are per target: prefix llr_)
+               "llr_stop_hit": 0.2, "llr_stop_spans_pieces": 0.04, "llr_multibyte_split_over_3_tokens": 0.04, "llr_limit_hit": 0.15,
+               "llr_limit_on_withheld_piece": 0.04, "llr_eos_hit": 0.1, "llr_context_shift": 0.05, "llr_invalid_utf8": 0.01,
+               "llr_slow_client_runner_blocked_on_full_buffer": 0.008},
     "rule": "rapid-generated: text = 0-14 atoms from {a b c space ab e-acute e-grave U+65E5 euro U+672C U+1F600 sharp-s newline} (1 in 10: 1-3 "
             "invalid byte sequences inserted), cut into 1-11 token pieces at arbitrary byte offsets (empty pieces allowed); 0-3 stop strings "
             "(substrings of the text at character boundaries, extensions / shortenings of earlier stop strings, unrelated atom sequences, "
@@ -52,10 +76,19 @@ CHECK = {
             "whose Write blocks from the k-th chunk on (k = 0, 0..40 or anywhere) until the runner cannot move (blocked on the full "
             "100-entry response buffer, or finished), then accepts everything; same oracle. Non-trivial = the stop occurrence that ends generation, or a multi-byte "
             "character, is split across >= 2 pieces. Distinct = distinct hash of the generated case. Laws target: same texts/pieces/stops, "
-            "every byte offset.",
+            "every byte offset. llamarunner target: text = 0-14 of the same atoms; mode exact (grammar = the text, then EOS) | tail (text then an "
+            "endless run of filler characters x y z: only a stop string or the limit ends it) | free (no grammar: tokens uniform over the "
+            "whole vocabulary, mostly invalid UTF-8), sampler seed 0..2^31-1 (decides the cut into token pieces), ollama's default sampling "
+            "options 1 in 4 (else neutral), 0-3 stop strings (substrings of the text, extensions / shortenings, a text prefix followed by "
+            "something else, filler strings, unrelated atoms, rarely empty), num_predict in {-1, 0, 1..2*atoms+4}, num_ctx in {6,8,16,64,512}, "
+            "batch in {1,2,8,32}, parallel 1|2, prompt 1-4 tokens + BOS, num_keep -1..4; 1 case in 24 has a slow client (310-420 filler "
+            "characters = 104-420 pieces in front of the text). Non-trivial there = the stop occurrence that ends generation begins in an "
+            "earlier piece, or a character is split over >= 2 tokens.",
     "assumptions": ["one request at a time on a fresh Server per case (parallel 1, plain causal cache)",
                     "slow client = a ResponseWriter whose Write blocks; it resumes at bubble quiescence (testing/synctest, go1.26.8)",
                     "scripted model: the k-th sampling returns the k-th piece's token, then EOS (if scripted)",
                     "stop strings are valid UTF-8 (they arrive as JSON)",
-                    "llamarunner's streaming loop (cgo) is not executed; it shares runner/common with the loop that is"],
+                    "llamarunner target: llama.cpp's sampler, grammar and RNG are deterministic functions of (logits, parameters, seed); all logits are "
+                    "exactly 0 (output.weight = 0), so no floating-point noise can make runner and reference pick different tokens",
+                    "llamarunner target: one request at a time on a fresh Server per case over a cached llama.cpp context (cleared)"],
 }
